@@ -12,7 +12,7 @@ from hypothesis import strategies as st
 from labrea import runtime
 from labrea.cache import CacheSetRequest
 
-from .. import specgen, universe as U
+from .. import sem, specgen, universe as U
 from ..build import _DS_NAME, build, run
 from ..harness import Part, Violation, canon
 from ..ref import Ref
@@ -34,7 +34,10 @@ RULE = ("a history on ONE long-lived build; every step draws one element of the 
         "obtained and partly consumed inside cache.disabled() / logging.disabled() and drained after the block; every item "
         "has the switches-off value and two following switches-off evaluations cache and log normally; and of another third: a "
         "dataset that has been in use is switched to NoCache through set_cache() (instance or class form) and must from "
-        "then on recompute and log once per evaluation. Non-trivial = the history "
+        "then on recompute and log once per evaluation. part 'interface-members': an @interface member supplied as a ready-made "
+        "dataset (with or without its own dispatch, nocache by factory / set_cache or cached) evaluated under a sequence of "
+        "switch combinations: value, body runs, effect calls and INFO records per step as for a dataset outside an "
+        "interface. Non-trivial = the history "
         "uses >=3 distinct combinations incl. a cache-off step on a graph that reaches a cacheable dataset; distinct = "
         "distinct (spec, history) hash.")
 ASSUMPTIONS = [
@@ -339,8 +342,99 @@ def enum_cross(ctx):
     ctx.exhaustive["switch-cross-product-on-fixed-family"] = ctx.exhaustive.get("switch-cross-product-on-fixed-family", 0) + k // ctx.nshards
 
 
+# ---- interface members that are ready-made datasets -------------------------------------------------------------------
+def check_interface_member(case, ctx):
+    """An @interface member supplied as a dataset of its own (own dispatch, effect, possibly nocache): the switches and
+    the log count apply to it exactly as to a dataset outside an interface."""
+    from labrea import Option, dataset, interface
+    from labrea.cache import NoCache
+    log = []
+
+    def eff(value):
+        log.append(("effect", value))
+
+    def member(a=Option("A", 0)):
+        log.append(("body",))
+        return ("m", a)
+    member.__name__ = "member"
+    factory = dataset.nocache if case["nocache"] == "factory" else dataset
+    kw = {"effects": [eff]}
+    if case["own_dispatch"]:
+        kw["dispatch"] = "K2"
+    m = factory(**kw)(member)
+    iface = interface("K")(type("Iface", (), {"member": m}))
+    live = iface.member
+    if case["nocache"] == "set_cache":
+        live.set_cache(NoCache())
+    cached_member = case["nocache"] == "none"
+    stored = set()
+    labels = {"nocache=" + case["nocache"], f"own-dispatch={case['own_dispatch']}"}
+    for i, (a, combo) in enumerate(case["steps"]):
+        cache, effects, logsw = combo
+        o = {"A": a}
+        lab = {}
+        if cache == "opt-DISABLED":
+            lab.setdefault("CACHE", {})["DISABLED"] = True
+        elif cache == "opt-DISABLE":
+            lab.setdefault("CACHE", {})["DISABLE"] = True
+        if effects == "opt":
+            lab.setdefault("EFFECTS", {})["DISABLED"] = True
+        if logsw == "opt":
+            lab.setdefault("LOGGING", {})["DISABLED"] = True
+        if lab:
+            o["LABREA"] = lab
+        if effects == "toggle":
+            live.disable_effects()
+        cap = _Capture()
+        root_logger = logging.getLogger()
+        old_level = root_logger.level
+        root_logger.addHandler(cap)
+        root_logger.setLevel(logging.INFO)
+        mark = len(log)
+        try:
+            with contextlib.ExitStack() as stack:
+                if cache == "ctx":
+                    stack.enter_context(labrea.cache.disabled())
+                if logsw == "ctx":
+                    stack.enter_context(labrea.logging.disabled())
+                out = run(live.evaluate, o)
+        finally:
+            root_logger.removeHandler(cap)
+            root_logger.setLevel(old_level)
+            live.enable_effects()
+        where = f"step {i} A={a} combo={combo} (interface member: nocache={case['nocache']}, own dispatch={case['own_dispatch']})"
+        if not out.ok or out.value != sem.typed(("m", a)):
+            raise Violation("value-changed-by-switch", f"{where}: got {out!r}, expected {sem.typed(('m', a))}")
+        events = log[mark:]
+        n_body = sum(1 for e in events if e[0] == "body")
+        n_eff = sum(1 for e in events if e[0] == "effect")
+        records = [r for r in cap.records if "member" in r[1]]
+        must_compute = not cached_member or cache != "on" or a not in stored
+        if must_compute and n_body != 1:
+            raise Violation("cache-read-while-disabled", f"{where}: the body ran {n_body}x, expected 1 (no usable stored entry)")
+        if not must_compute and n_body != 0:
+            raise Violation("body-rerun-on-repeat", f"{where}: the body ran {n_body}x although the value was stored with caching on")
+        if cached_member and cache == "on":
+            stored.add(a)
+        want_eff = n_body if effects == "on" else 0
+        if n_eff != want_eff:
+            raise Violation("effect-ran-while-disabled" if n_eff > want_eff else "effect-count", f"{where}: {n_eff} effect calls for {n_body} computed evaluations (effects {effects})")
+        want_rec = n_body if logsw == "on" else 0
+        if len(records) != want_rec or any(r[0] != logging.INFO for r in records):
+            raise Violation("log-emitted-while-disabled" if len(records) > want_rec else "log-count",
+                            f"{where}: {len(records)} log records {records[:3]} for {n_body} computed evaluations (logging {logsw})")
+    ctx.done(case, len({tuple(c) for _, c in case["steps"]}) >= 2, labels)
+
+
+@st.composite
+def interface_member_cases(draw):
+    return {"nocache": draw(st.sampled_from(["none", "none", "factory", "set_cache"])), "own_dispatch": draw(st.booleans()),
+            "steps": [[draw(st.sampled_from([1, 2])), list(draw(st.sampled_from(COMBOS)))] for _ in range(draw(st.integers(2, 5)))]}
+
+
 PROFILE = specgen.profile(depth=2, domain_rate=0.01, max_defs=5)
 PARTS = [
     Part("cross-product", check, enumerate=enum_cross, budget={"quick": None, "thorough": None}),
     Part("histories", check, strategy=lambda ctx: cases(PROFILE, 7 if ctx.tier == "quick" else 14), budget={"quick": 350, "thorough": 1500}),
+    Part("interface-members", check_interface_member, strategy=lambda ctx: interface_member_cases(), budget={"quick": 150, "thorough": 800}),
 ]
